@@ -67,6 +67,7 @@ InvC08        == Final => C08Holds(b, m, out)
 InvDefsAgree  == Final => out = MinRun(b, m) /\ out = MinRunFold(b, m)
 InvIdempotent == Final => MinRun(out, m) = out
 InvMonotoneM  == Final => \A k \in 1 .. Len(b) : (m > 0 /\ out[k]) => MinRun(b, m - 1)[k]
+InvRunLength  == Final => LET r == Encode(b) IN KeptPerRun(r, m) = TruePerRun(r, out)
 \* scanning never sets an element and never touches what it has not passed yet
 InvScan       == \A k \in 1 .. Len(b) : (out[k] => b[k]) /\ (k >= pos => out[k] = b[k])
 \* ---- conformance ----
